@@ -9,6 +9,7 @@ import (
 	"hash/fnv"
 	"strings"
 	"sync"
+	"time"
 
 	"github.com/plgd-dev/go-coap/v3/message/pool"
 )
@@ -23,6 +24,7 @@ type lcEvent struct {
 }
 
 type poolTracker struct {
+	relCh map[*pool.Message]chan struct{}
 	mu    sync.Mutex
 	ids   map[*pool.Message]int
 	log   []lcEvent
@@ -30,7 +32,7 @@ type poolTracker struct {
 }
 
 func newPoolTracker() *poolTracker {
-	return &poolTracker{ids: map[*pool.Message]int{}, holds: map[*pool.Message]uint64{}}
+	return &poolTracker{ids: map[*pool.Message]int{}, holds: map[*pool.Message]uint64{}, relCh: map[*pool.Message]chan struct{}{}}
 }
 
 func (t *poolTracker) id(m *pool.Message) int {
@@ -45,7 +47,30 @@ func (t *poolTracker) id(m *pool.Message) int {
 func (t *poolTracker) Released(_ *pool.Pool, m *pool.Message) {
 	t.mu.Lock()
 	t.log = append(t.log, lcEvent{"Rel", t.id(m), true})
+	if ch, ok := t.relCh[m]; ok {
+		close(ch)
+		delete(t.relCh, m)
+	}
 	t.mu.Unlock()
+}
+
+// waitReleased blocks until m has been released by somebody (or the timeout passes): used on the
+// receive path to let the caller that was handed a hijacked message release it first.
+func (t *poolTracker) waitReleased(m *pool.Message, d time.Duration) {
+	t.mu.Lock()
+	ch, ok := t.relCh[m]
+	if !ok {
+		ch = make(chan struct{})
+		t.relCh[m] = ch
+	}
+	t.mu.Unlock()
+	select {
+	case <-ch:
+	case <-time.After(d):
+		t.mu.Lock()
+		delete(t.relCh, m)
+		t.mu.Unlock()
+	}
 }
 
 func (t *poolTracker) Recycled(_ *pool.Pool, m *pool.Message) {
